@@ -93,7 +93,7 @@ def parse_info(line):
         d[k] = v
     for k in ("real", "blank", "nzbo"):
         d[k] = [int(x) for x in d[k].split(",")] if d.get(k, "-") != "-" else []
-    for k in ("order", "entries", "blanks", "closed", "ctx", "proper", "distinct", "unk"):
+    for k in ("order", "entries", "blanks", "closed", "ctx", "proper", "distinct", "unk", "hashinj"):
         d[k] = int(d[k])
     return d
 
@@ -176,6 +176,9 @@ def compare(case, impl_lines, model_lines, classes=CLASSES, want=("oracle", "str
         return problems, stats
     if not info["ctx"] or not info["distinct"]:
         stats["skipped"] = "outside-input-class"
+        return problems, stats
+    if not info.get("hashinj", 1):
+        stats["skipped"] = "hash-collision"      # hypothesis of probing_refines violated: discarded and counted
         return problems, stats
     loaded = [c for c in classes if load.get(c) == "ok"]
     for c in classes:
